@@ -237,7 +237,7 @@ func (s *scheduler) runTask(m *Machine, t *task) {
 				atomic.StoreInt32(&ur.stop, 1)
 			}
 		}
-		if wantSample && res.Nondets != nil {
+		if res.Nondets != nil {
 			samples = append(samples, Sample{Unit: u.Name, Entry: u.Entry, Params: u.Params, Nondets: res.Nondets, Obs: res.Obs, End: res.End})
 			if len(samples)%4 == 0 {
 				sampleEvery *= 2 // spread samples over the exploration
@@ -257,7 +257,7 @@ func (s *scheduler) runTask(m *Machine, t *task) {
 	ur.mu.Lock()
 	ur.Stats.Merge(m.Stats)
 	ur.Failures = append(ur.Failures, fails...)
-	if len(ur.Samples) < u.Samples {
+	if len(ur.Samples) < 4*u.Samples+4 {
 		ur.Samples = append(ur.Samples, samples...)
 	}
 	if truncated {
